@@ -50,7 +50,7 @@ Proof.
     - apply Y_propassign; assumption.
     - apply Y_call; [assumption|]. apply YieldsList_flat; assumption.
     - apply Y_index; assumption.
-    - change (flat_e o ++ [Sym TDOT; SymId p]) with (flat_e o ++ [Sym TDOT; SymId p]). apply Y_prop; assumption.
+    - apply Y_prop; assumption.
     - apply Y_array. apply YieldsList_flat; assumption.
     - apply (Y_object ps); [apply YieldsRaw_flat; assumption|].
       rewrite fold_put_nodup; [reflexivity|assumption]. }
@@ -409,6 +409,28 @@ Theorem pprimary_sound f ts e r ds :
   ds = [] /\ WFk (S nlev) (erase_e e) /\ exists pre, ts = pre ++ r /\ Yields (erase_e e) (map sym_of pre).
 Proof.
   intros H. destruct (sound_all f) as (_ & _ & _ & _ & _ & _ & Ip & _). destruct (Ip _ _ _ _ H) as (-> & W & s & (pre & -> & <-) & Y).
+  split; [reflexivity|split; [exact W|]]. exists pre. split; [reflexivity|exact Y].
+Qed.
+
+(** the loop invariants: whatever writes the accumulator, extended by the consumed
+    tokens, writes the result; the result stays in the level of the loop *)
+Theorem ploop_sound f k a ts e r ds :
+  k < nlev -> ploop f (lvl k) (skipn (S k) ladder) a ts = POk e r ds -> WFk k (erase_e a) ->
+  ds = [] /\ WFk k (erase_e e) /\
+  exists pre, ts = pre ++ r /\ forall sa, Yields (erase_e a) sa -> Yields (erase_e e) (sa ++ map sym_of pre).
+Proof.
+  intros Hk H Wa. destruct (sound_all f) as (_ & _ & Ilo & _).
+  destruct (Ilo _ _ _ _ _ _ Hk H Wa) as (-> & W & s & (pre & -> & <-) & Y).
+  split; [reflexivity|split; [exact W|]]. exists pre. split; [reflexivity|exact Y].
+Qed.
+
+Theorem pcallloop_sound f a ts e r ds :
+  pcallloop f a ts = POk e r ds -> WFk (S nlev) (erase_e a) ->
+  ds = [] /\ WFk (S nlev) (erase_e e) /\
+  exists pre, ts = pre ++ r /\ forall sa, Yields (erase_e a) sa -> Yields (erase_e e) (sa ++ map sym_of pre).
+Proof.
+  intros H Wa. destruct (sound_all f) as (_ & _ & _ & _ & Ic & _).
+  destruct (Ic _ _ _ _ _ H Wa) as (-> & W & s & (pre & -> & <-) & Y).
   split; [reflexivity|split; [exact W|]]. exists pre. split; [reflexivity|exact Y].
 Qed.
 
